@@ -314,7 +314,7 @@ def roster(chk, rng, tier):
                            if kind != "fused" or (x[1] <= 33 and (x[0] * x[1] > 1000 or hi <= 65536))])
         T = max(3, fill_frames(V, w) + rng.choice([2, 2, 3]))
         if kind == "tol":
-            return module_tol(chk, rng, tier, V, w, T, rng.choice([1, 1, 2]), rng.choice(["f64", "f64", "f32"]),
+            return module_tol(chk, rng, tier, V, w, T, 1 if quick else rng.choice([1, 1, 2]), rng.choice(["f64", "f64", "f32"]),
                               style="mixed", **kw)
         if kind == "fused":
             return module_tol(chk, rng, tier, V, w, min(T, 4), 1 if quick else rng.choice([1, 1, 2]),
